@@ -199,7 +199,7 @@ def havoc_targets(ex, spec, st, fr):
         if len(parts) == 1:
             cur = st.env.get(parts[0])
             if cur is None:
-                raise SpecError('loop modifies unknown local %s' % path)
+                continue     # first bound inside the loop body: nothing to havoc at the head
             if isinstance(cur, VRef):
                 st.env[parts[0]] = havoc_val(ex, cur, path, st)
             else:
@@ -241,8 +241,15 @@ def loop_old(ex, st, fr):
     return getattr(root, 'pre_env', None)
 
 
+def take_snapshot(spec, st):
+    for nm in spec.snapshot:
+        if nm in st.env:
+            st.env['pre_' + nm] = st.env[nm]
+
+
 def cut_while(ex, n, st, fr, spec):
     old = loop_old(ex, st, fr)
+    take_snapshot(spec, st)
     check_inv(ex, spec, st, fr, n, 'init', old=old)
     havoc_targets(ex, spec, st, fr)
     assume_inv(ex, spec, st, fr, old=old)
@@ -277,6 +284,7 @@ def cut_while(ex, n, st, fr, spec):
 def cut_for(ex, n, src, st, fr, spec):
     old = loop_old(ex, st, fr)
     idx = spec.index or '_i'
+    take_snapshot(spec, st)
     ln0, _ = src_len_item(ex, src, z3.IntVal(0), st)
     check_inv(ex, spec, st, fr, n, 'init', {idx: VInt(0)}, old=old)
     havoc_targets(ex, spec, st, fr)
